@@ -3,9 +3,11 @@
 cd "$(dirname "$0")" || exit 2
 ROOT=$(pwd)
 mkdir -p evidence replays
+T=$(mktemp -d) || exit 2          # SANY unpacks its library into java.io.tmpdir: keep that out of /tmp proper
+trap 'rm -rf "$T"' EXIT
 cd spec || exit 2
 for m in *.tla; do
-  out=$(java -cp /opt/veriftools/tla/tla2tools.jar:/opt/veriftools/tla/CommunityModules-deps.jar tla2sany.SANY "$m" 2>&1) || { echo "$out"; exit 2; }
+  out=$(java -Djava.io.tmpdir="$T" -cp /opt/veriftools/tla/tla2tools.jar:/opt/veriftools/tla/CommunityModules-deps.jar tla2sany.SANY "$m" 2>&1) || { echo "$out"; exit 2; }
   case "$out" in *"*** Errors"*|*"Fatal errors"*) echo "$out"; exit 2;; esac
 done
 cd "$ROOT" || exit 2
